@@ -325,6 +325,10 @@ RULES = {
     # carries the contract of the prelude's Local::now: `ensures r == clock_now()`)
     "R16": [(".into_iter().map(", ".vmap("), (".filter_map(", ".vfilter_map("), (".reduce(", ".vreduce(")],
     "R16b": [(".unwrap_or_else(Local::now)", ".unwrap_or_else(|| -> (r: DateTime<Local>) ensures r == clock_now() { Local::now() })")],
+    # R18: the fn item `String::len` as a closure value -> a closure with the contract of the prelude's String::len
+    "R18": [("map_or(0, String::len)", "map_or(0, |s: &String| -> (r: usize) ensures r == byte_len(s@) { s.len() })")],
+    # R17 (computed): `v.iter().map(f).max()` -> shim `v.vmax_map(f)`, `v.iter().map(f).min()` -> `v.vmin_map(f)`
+    "R17": [],
     # R13 (computed): `v.iter().filter_map(f).max()` (provided trait methods) -> shim `v.vmax_filter_map(f)`
     "R13": [],
     # R15: `String::add(&str)` (its std signature cannot be matched by assume_specification: two lifetime binders) -> shim method
@@ -376,6 +380,20 @@ def apply_rule(sf, a, b, rule, edits):
                         edits.replace(k, k + 1, [Piece("self_", sf, toks[k].start)])
                 hits += 1
                 break
+        return hits
+    if rule == "R17":
+        pat = [".", "iter", "(", ")", ".", "map", "("]
+        for p in range(len(sigidx) - len(pat)):
+            if [toks[sigidx[p + q]].text for q in range(len(pat))] == pat:
+                open_k = sigidx[p + len(pat) - 1]
+                close_k = sf.br[open_k]
+                tail = [k for k in sigidx if k > close_k][:4]
+                tt = [toks[k].text for k in tail]
+                if tt not in ([".", "max", "(", ")"], [".", "min", "(", ")"]):
+                    continue
+                edits.replace(sigidx[p], sigidx[p + 5] + 1, [Piece(".v%s_map" % tt[1], sf, toks[sigidx[p]].start)])
+                edits.replace(tail[0], tail[3] + 1, [Piece("")])
+                hits += 1
         return hits
     if rule == "R13":
         # `$E.iter().filter_map(<closure>).max()` -> `$E.vmax_filter_map(<closure>)`
